@@ -642,6 +642,82 @@ def rule_radix_marker(chk, facts):
     if n < 1:
         raise AnalysisBroken('no radix/marker comparison found in intformat.c')
 
+    # every handler that recognises its marker *letter* (case-folded comparison with the handler's character
+    # parameter, itself or through a helper of the unit) and has no quote to delimit the digits must pass such a
+    # comparison on every path to "return True"
+    chk.rule('C08-R12', 'intformat.c: each constant-format handler that recognises a marker letter directly next to the '
+             'digits (case-folded comparison with its character parameter, no quote delimiter) reaches "return True" only '
+             'through a comparison of RadixBase with the letter\'s digit value', min_instances=3)
+
+    def mentions_call(e, names):
+        return any(isinstance(m, (list, tuple)) and m and m[0] == 'call' and callee_name(m) in names for m in walk(e))
+
+    def chparam(f):
+        for p in f.params:
+            if p['type'].get('t') == 'char':
+                return ('p', p['name'])
+        return None
+
+    def letter_cmp(f, depth=0):
+        cp = chparam(f)
+        if cp is None:
+            return False
+        for b, i, ln, m in f.nodes():
+            if m[0] == 'b' and m[1] in ('==', '!='):
+                for x, y in ((m[2], m[3]), (m[3], m[2])):
+                    if nocast(y) == cp and mentions_call(x, ('toupper', 'tolower')):
+                        return True
+            if m[0] == 'call' and depth < 2 and any(nocast(a) == cp for a in m[2]):
+                g = u.funcs.get(callee_name(m) or '')
+                if g is not None and g is not f and letter_cmp(g, depth + 1):
+                    return True
+        return False
+
+    def quote_delim(f):
+        return any(m[0] == 'b' and m[1] in ('==', '!=') and (const_val(m[3]) == 39 or const_val(m[2]) == 39) for b, i, ln, m in f.nodes())
+
+    def radix_edge(f):
+        def pred(l):
+            if l is None or l[0] not in ('T', 'F'):
+                return False
+            for m in walk(l[1]):
+                if isinstance(m, (list, tuple)) and m and m[0] == 'b' and m[1] in ('<', '<=', '>', '>='):
+                    L, Rr = _lin(f, m[2]), _lin(f, m[3])
+                    if L is not None and Rr is not None:
+                        d = dict(L)
+                        for k, v in Rr.items():
+                            d[k] = d.get(k, 0) - v
+                        if d.get('R') and d.get('D'):
+                            return True
+                if isinstance(m, (list, tuple)) and m and m[0] == 'call':
+                    g = u.funcs.get(callee_name(m) or '')
+                    if g is not None and g is not f and chparam(g) and any(nocast(a) == chparam(f) for a in m[2]) and radix_guarded(g, 1):
+                        return True
+            return False
+        return pred
+
+    def radix_guarded(f, depth=0):
+        if depth > 2:
+            return False
+        rets = [(b, i, ln) for b, i, ln, m in f.nodes() if m[0] == 'ret' and m[1] is not None and const_val(nocast(m[1])) not in (0,)]
+        if not rets:
+            return False
+        return all(f.guarded(b, i, radix_edge(f))[0] for b, i, ln in rets)
+    n12 = 0
+    for f in u.funcs.values():
+        if f.file != 'intformat.c' or not f.name.startswith('ChkIntFormat') or f.entry is None:
+            continue
+        if not letter_cmp(f) or quote_delim(f):
+            continue
+        n12 += 1
+        ok = radix_guarded(f)
+        chk.ob('C08-R12', 'intformat.c:%s:marker-needs-radix-test' % f.name, ok, f.loc(),
+               'every "return True" lies behind the radix test' if ok else
+               '%s() accepts its marker letter without looking at RadixBase: with a RADIX in which the letter is a digit '
+               '(RADIX 16 and 0b11) the constant is still read in the marker\'s number system' % f.name)
+    if n12 < 3:
+        raise AnalysisBroken('only %d letter-marker handlers found in intformat.c' % n12)
+
 
 def run(chk, facts, info):
     rule_operators(chk, facts)
